@@ -133,7 +133,7 @@ func runRebuildCase(c caseDef) caseResult {
 	knownAfter := 0
 	// recorded finding 8 (see converge.go): active from a step that creates / deletes the Service exported to nobody
 	// while a provider backed by it is in use, until the Service changes again
-	nobodyActive := false
+	nobody := &nobodyTracker{}
 	compare := func(after int) *caseResult {
 		attempt := func() []string {
 			ps1 := env.PushContext()
@@ -146,7 +146,7 @@ func runRebuildCase(c caseDef) caseResult {
 					if bv, ok := b[k]; !ok {
 						bad = append(bad, k+":extra"+tag)
 					} else if bv != v {
-						if f := strings.SplitN(k, "/", 3); nobodyActive && len(f) == 3 && f[1] == "LDS" &&
+						if f := strings.SplitN(k, "/", 3); nobody.stale && usesKsvcProvider(w) && len(f) == 3 && f[1] == "LDS" &&
 							stripMentions(v, nobodyProviderHost) == stripMentions(bv, nobodyProviderHost) {
 							if len(known) < 6 {
 								known, knownAfter = append(known, k+":"+kindProviderNobody), after
@@ -229,15 +229,7 @@ func runRebuildCase(c caseDef) caseResult {
 			return caseResult{Verdict: fmt.Sprintf("FAIL apply-error step=%d %s", i+1, wire.Enc(err.Error()))}
 		}
 		dnsZeroed.step(s, w)
-		if s.ID == "k-svc" {
-			aw := w.clone()
-			if s.Op == "delete" {
-				delete(aw, s.ID)
-			} else {
-				aw[s.ID] = s.Variant
-			}
-			nobodyActive = nobodyTrigger(w, aw) && usesKsvcProvider(aw)
-		}
+		nobody.step(s, w)
 		if s.Op == "delete" {
 			delete(w, s.ID)
 		} else {
